@@ -20,14 +20,14 @@ pub fn def() -> PropDef {
     PropDef {
         id: "C13",
         level: "model_checking",
-        rule: "(a) every sequence of length <= d over {remote insert of an entry of a two-author universe, remove-and-recreate the document}; after the last step get_latest_for_each_author and has_news_for_us(h) for every peer report h in {absent,0,T1,T2,T3}^2 are compared with the heads of the reference replica; (b) AuthorHeads::encode/decode for every set of <= 4 authors with timestamps from {0,1,2,127,128,16383,16384} (equal timestamps included) under every size limit from 1 to unlimited length + 1 and without limit, plus one set of 200 heads (the length prefix of the encoding grows to two bytes at 128) under every limit in the window that keeps 120..136 heads; non-trivial (a) = the sequence holds two entries of one author with different timestamps or a removal after an insert, (b) = at least two authors",
+        rule: "(a) every sequence of length <= d over {remote insert of an entry of a two-author universe, remove-and-recreate the document}; after the last step get_latest_for_each_author and has_news_for_us(h) for every peer report h in {absent,0,T1,T2,T3}^2 are compared with the heads of the reference replica; (b) AuthorHeads::encode/decode for every set of <= 4 authors with timestamps from {0,1,2,127,128,16383,16384} (equal timestamps included) under every size limit from 1 to unlimited length + 1 and without limit, plus one set of 200 heads (the length prefix of the encoding grows to two bytes at 128) under every limit in the window that keeps 120..136 heads; (c) the head set as a data structure: every sequence of <= 4 inserts over 3 authors x timestamps {0,1,2,u64::MAX}: get/len/iter equal the per-author maximum, and for every split of the sequence into two sets merge is the pointwise maximum, has_news_for counts exactly the strictly newer or unknown authors, encode/decode returns the set; non-trivial (a) = the sequence holds two entries of one author with different timestamps or a removal after an insert, (b) = at least two authors",
         assumptions: &[
             "size limit 0 is excluded: no postcard sequence fits into zero bytes",
             "where several keys attain an author's maximal timestamp any of them is accepted as the head's key",
         ],
         bound: |t| match t {
-            Tier::Quick => json!({"a": "37-symbol alphabet (2 authors x {'',a,ab} x ts1..3 x {x,DEL} + recreate), depth <= 3", "b": "4166 head sets x all limits"}),
-            Tier::Thorough => json!({"a": "37-symbol alphabet depth <= 3 plus 25-symbol alphabet (2 authors x {a,ab} x ts1..3 x {x,DEL} + recreate) depth 4", "b": "4166 head sets x all limits"}),
+            Tier::Quick => json!({"a": "37-symbol alphabet (2 authors x {'',a,ab} x ts1..3 x {x,DEL} + recreate), depth <= 3", "b": "4166 head sets x all limits", "c": "12-symbol insert alphabet, depth <= 4, all splits"}),
+            Tier::Thorough => json!({"a": "37-symbol alphabet depth <= 3 plus 25-symbol alphabet (2 authors x {a,ab} x ts1..3 x {x,DEL} + recreate) depth 4", "b": "4166 head sets x all limits", "c": "12-symbol insert alphabet, depth <= 4, all splits"}),
         },
         run,
         replay,
@@ -381,9 +381,97 @@ fn check_heads(set: &[(u8, u64)]) -> (Vec<(&'static str, Value, String)>, u64) {
     (bad, calls)
 }
 
+/// (c) The head set as a data structure (what a session's outcome and a decoded report are built
+/// with): inserting keeps the greatest timestamp per author, merging is the pointwise maximum, and
+/// `has_news_for` counts the authors for which the left side is strictly newer or the right side
+/// has nothing.
+const ALG_TS: [u64; 4] = [0, 1, 2, u64::MAX];
+
+fn check_algebra(seq: &[(u8, u64)]) -> (Vec<(&'static str, Value, String)>, u64) {
+    let mut bad = vec![];
+    let mut calls = 0u64;
+    let build = |part: &[(u8, u64)]| {
+        let mut h = AuthorHeads::default();
+        let mut m: BTreeMap<AuthorId, u64> = BTreeMap::new();
+        for (a, t) in part {
+            h.insert(aid(*a), *t);
+            let e = m.entry(aid(*a)).or_insert(0);
+            *e = (*e).max(*t);
+        }
+        (h, m)
+    };
+    let as_map = |h: &AuthorHeads| h.iter().map(|(a, t)| (*a, *t)).collect::<BTreeMap<AuthorId, u64>>();
+    let (h, m) = build(seq);
+    calls += 1;
+    if as_map(&h) != m || h.len() != m.len() || h.is_empty() != m.is_empty() || (0..3).any(|a| h.get(&aid(a)) != m.get(&aid(a)).copied()) {
+        bad.push((
+            "insert_keeps_the_greatest_timestamp",
+            json!({}),
+            format!("after inserting {seq:?}: heads={:?} len={} model={:?}", as_map(&h).values().collect::<Vec<_>>(), h.len(), m.values().collect::<Vec<_>>()),
+        ));
+    }
+    for k in 0..=seq.len() {
+        let (x, mx) = build(&seq[..k]);
+        let (y, my) = build(&seq[k..]);
+        calls += 2;
+        let mut merged = x.clone();
+        merged.merge(&y);
+        let mut want = mx.clone();
+        for (a, t) in &my {
+            let e = want.entry(*a).or_insert(0);
+            *e = (*e).max(*t);
+        }
+        if as_map(&merged) != want {
+            bad.push(("merge_is_pointwise_maximum", json!({}), format!("merge of {:?} and {:?}", &seq[..k], &seq[k..])));
+        }
+        let want_news = mx.iter().filter(|(a, t)| my.get(*a).map(|u| *t > u).unwrap_or(true)).count() as u64;
+        let got_news = x.has_news_for(&y).map(|n| n.get()).unwrap_or(0);
+        if got_news != want_news {
+            bad.push((
+                "news_exactly_for_newer_or_unknown_authors",
+                json!({"structure": true}),
+                format!("{:?} has_news_for {:?}: impl={got_news} model={want_news}", &seq[..k], &seq[k..]),
+            ));
+        }
+        // a decoded report is the same set as the encoded one, whatever the insertion history
+        if let Some(d) = x.encode(None).ok().and_then(|e| AuthorHeads::decode(&e).ok()) {
+            if d != x {
+                bad.push(("no_limit_keeps_every_author", json!({"after_inserts": true}), format!("{:?}", &seq[..k])));
+            }
+        }
+    }
+    (bad, calls)
+}
+
 fn run(ctx: &Ctx, report: &mut Report) {
     crate::util::silence_panics();
     let mut ordinal = 0u64;
+    // (c)
+    let alg: Vec<(u8, u64)> = (0..3u8).flat_map(|a| ALG_TS.iter().map(move |t| (a, *t))).collect();
+    for depth in 1..=4 {
+        for_each_sequence(alg.len(), depth, |ix| {
+            ordinal += 1;
+            if !ctx.mine(ordinal) {
+                return;
+            }
+            let seq: Vec<(u8, u64)> = ix.iter().map(|&i| alg[i]).collect();
+            report.evaluations += 1;
+            report.traces += 1;
+            if seq.iter().enumerate().any(|(i, (a, t))| seq[..i].iter().any(|(b, u)| a == b && t != u)) {
+                report.nontrivial += 1;
+            }
+            let case = json!({"algebra": seq});
+            match catch(|| check_algebra(&seq)) {
+                Err(p) => report.violation("no_panic", json!({}), case, format!("panic: {p}"), ordinal),
+                Ok((bad, calls)) => {
+                    report.transitions += calls;
+                    for (o, w, d) in bad {
+                        report.violation(o, w, case.clone(), d, ordinal);
+                    }
+                }
+            }
+        });
+    }
     // (a)
     let mut fams: Vec<(Vec<Op>, std::ops::RangeInclusive<usize>)> =
         vec![(alphabet(&[b"", b"a", b"ab"]), 1..=3)];
@@ -484,6 +572,19 @@ fn replay(case: &Value) -> anyhow::Result<(bool, String)> {
             Err(p) => Ok((true, format!("panic: {p}"))),
             Ok((bad, _)) => {
                 let out: String = bad.iter().map(|(o, _, d)| format!("FAILED {o}: {d}\n")).collect();
+                Ok((!bad.is_empty(), out))
+            }
+        };
+    }
+    if let Some(h) = case.get("algebra") {
+        let seq: Vec<(u8, u64)> = serde_json::from_value(h.clone())?;
+        return match catch(|| check_algebra(&seq)) {
+            Err(p) => Ok((true, format!("panic: {p}"))),
+            Ok((bad, _)) => {
+                let mut out = format!("inserts {seq:?}\n");
+                for (o, _, d) in &bad {
+                    out.push_str(&format!("FAILED {o}: {d}\n"));
+                }
                 Ok((!bad.is_empty(), out))
             }
         };
